@@ -179,6 +179,9 @@ func runC08(p *Program, r *Result) {
 			})
 			if ok3 {
 				r.OK(rd.String(), "line:after-header", r.pos(d), "", guardWitness(p, a3))
+			} else if n, cut := startedCut(p, rd, d); cut {
+				// no single guard: every path to the decoder either saw `started` true or set it
+				r.OK(rd.String(), "line:after-header", r.pos(d), "every path to the decoder passes a true test of `started` or a store of true to it ("+itoa(n)+" cut points)")
 			} else {
 				r.Bad(rd.String(), "line:after-header", r.pos(d), "body lines are decoded before the header line was seen")
 			}
@@ -344,4 +347,66 @@ func checkFooterAfterClose(p *Program, r *Result, cl *ssa.Function) {
 		}
 	}
 	r.Check(ok, cl.String(), "footer-separator-after-close", "", "LastLineIsEmpty is consulted only after encoder.Close() succeeded", "LastLineIsEmpty is called before the encoder is closed (its documentation calls that meaningless): the final padded group is not yet counted, so the footer is glued to or separated from the last line wrongly for some lengths")
+}
+
+// startedCut: with the true edges of tests of the reader's `started` field and the blocks that
+// store true to it removed, the decoder call is unreachable from the entry.
+func startedCut(p *Program, rd *ssa.Function, d ssa.CallInstruction) (int, bool) {
+	tb := p.TB(rd)
+	isStartedTrueEdge := func(b *ssa.BasicBlock, k int) bool {
+		if _, isIf := b.Instrs[len(b.Instrs)-1].(*ssa.If); !isIf {
+			return false
+		}
+		fe := tb.FactsOnEdge(b, k)
+		if len(fe) == 0 {
+			return false
+		}
+		a := fe[len(fe)-1]
+		return a.Kind == "bool" && a.Pol && short(a.X.String()) == "Field(Recv.started)"
+	}
+	storesTrue := func(b *ssa.BasicBlock, before ssa.Instruction) bool {
+		for _, in := range b.Instrs {
+			if in == before {
+				return false
+			}
+			if s, ok := in.(*ssa.Store); ok {
+				if fa, ok := s.Addr.(*ssa.FieldAddr); ok && fieldName(fa.X.Type(), fa.Field) == "started" && structTypeName(fa.X.Type()) == pkgArmor+".armoredReader" {
+					if c, isC := s.Val.(*ssa.Const); isC && c.Value != nil && c.Value.ExactString() == "true" {
+						return true
+					}
+				}
+			}
+		}
+		return false
+	}
+	cuts := 0
+	seen := map[*ssa.BasicBlock]bool{}
+	work := []*ssa.BasicBlock{rd.Blocks[0]}
+	for len(work) > 0 {
+		b := work[len(work)-1]
+		work = work[:len(work)-1]
+		if seen[b] {
+			continue
+		}
+		seen[b] = true
+		if b == d.Block() {
+			if storesTrue(b, d.(ssa.Instruction)) {
+				cuts++
+				continue
+			}
+			return cuts, false
+		}
+		if storesTrue(b, nil) {
+			cuts++
+			continue
+		}
+		for k, s := range b.Succs {
+			if isStartedTrueEdge(b, k) {
+				cuts++
+				continue
+			}
+			work = append(work, s)
+		}
+	}
+	return cuts, cuts > 0
 }
